@@ -8,13 +8,14 @@ Open Scope N_scope.
 
 Definition wf_name (L : limits) (k : bytes) : bool := wfbs k && (blen k <? max_name L).
 
-(* ReadArray checks the array length after every element it has read, and a reference is
-   read as two integers before it is rewritten: a reference needs room for two elements *)
+(* ReadArray: an array of k elements already read followed by the elements l stays within
+   maxArrayLen (a reference is read as two integers, for which ReadArray allows one transient
+   element beyond the limit) *)
 Definition cost (o : obj) : N := match o with ORef _ _ => 2 | _ => 1 end.
 Fixpoint arr_fits (L : limits) (k : N) (l : list obj) : bool :=
   match l with
-  | [] => true
-  | o :: r => (k + cost o <=? max_arr L) && arr_fits L (k + 1) r
+  | [] => k <=? max_arr L
+  | o :: r => arr_fits L (k + 1) r
   end.
 
 Fixpoint nodup_keys {A : Type} (l : list (bytes * A)) : bool :=
